@@ -295,9 +295,11 @@ Proof.
     rewrite total_rows_cons in Hle. cbn [item_rows] in Hle.
     cbn [emit_items]. replace (S nsdp - 1) with nsdp by lia.
     assert (Hle' : Z.leb (Z.of_nat (nb + length (entries m))) int32_lim = true) by (apply Z.leb_le; lia). rewrite Hle'.
-    change (TAppendBarvars [length m] :: ?x ++ ?y) with ([TAppendBarvars [length m]] ++ x ++ y).
-    rewrite run_app. cbn [run step].
+    rewrite (run_cons (TAppendBarvars [length m]) _ st
+               (mkT (t_bars st ++ [length m]) (t_vb st) (t_rows st) (t_syms st) (t_c st) (t_barc st) (t_sense st))
+               eq_refl).
     set (st1 := mkT (t_bars st ++ [length m]) (t_vb st) (t_rows st) (t_syms st) (t_c st) (t_barc st) (t_sense st)).
+    rewrite (run_cons _ _ st1 st1 (step_getnumcon st1 nb Hnb)).
     rewrite run_app.
     assert (Hb0' : nth_error (t_bars st ++ [length m]) 0 = Some pc).
     { destruct (t_bars st) as [|b bs] eqn:Eb; [cbn in Hkb; lia|]. cbn in *. exact Hb0. }
